@@ -19,15 +19,18 @@ package withstack
 //@   props C10 C07 C16
 //@   ensures err == nil ==> result == nil
 //@   ensures err != nil ==> typeis(result, *withStack) && result.(*withStack).cause == err
+//@   ensures[C16] err != nil ==> $cap == lvl - 1 - depth
 
 //@ func WithStack
 //@   props C10 C16
 //@   ensures err == nil ==> result == nil
 //@   ensures err != nil ==> typeis(result, *withStack) && result.(*withStack).cause == err
+//@   ensures[C16] err != nil ==> $cap == lvl - 1
 
 //@ func callers
 //@   props C16 C05
 //@   ensures result != nil
+//@   ensures[C16] $cap == lvl - 1 - depth
 
 //@ method (*stack).StackTrace
 //@   props C05 C11
